@@ -194,15 +194,34 @@ package decor
 //@   requires fn != nil
 //@   ensures  result != nil
 
+
+// wrapper constructors: a nil decorator stays nil; otherwise the result is the wrapper around
+// exactly that decorator with exactly that message / function (C03: what a finished bar shows)
+//@ func OnComplete
+//@   props    C02 C03 C07
+//@   modifies nothing
+//@   ensures  none: decorator == nil ==> result == nil
+//@   ensures  wraps: decorator != nil ==> hasType(result, "onCompleteWrapper") && unboxAs(result, "onCompleteWrapper").Decorator == decorator && unboxAs(result, "onCompleteWrapper").msg == message
+//@ func OnAbort
+//@   props    C02 C03 C07
+//@   modifies nothing
+//@   ensures  none: decorator == nil ==> result == nil
+//@   ensures  wraps: decorator != nil ==> hasType(result, "onAbortWrapper") && unboxAs(result, "onAbortWrapper").Decorator == decorator && unboxAs(result, "onAbortWrapper").msg == message
 //@ func Meta
-//@   props    C07 C02
+//@   props    C07 C02 C03
 //@   requires fn != nil
+//@   ensures  none: decorator == nil ==> result == nil
+//@   ensures  wraps: decorator != nil ==> hasType(result, "metaWrapper") && unboxAs(result, "metaWrapper").Decorator == decorator && unboxAs(result, "metaWrapper").fn == fn
 //@ func OnCompleteMeta
-//@   props    C07 C02
+//@   props    C07 C02 C03
 //@   requires fn != nil
+//@   ensures  none: decorator == nil ==> result == nil
+//@   ensures  wraps: decorator != nil ==> hasType(result, "onCompleteMetaWrapper") && unboxAs(result, "onCompleteMetaWrapper").Decorator == decorator && unboxAs(result, "onCompleteMetaWrapper").fn == fn
 //@ func OnAbortMeta
-//@   props    C07 C02
+//@   props    C07 C02 C03
 //@   requires fn != nil
+//@   ensures  none: decorator == nil ==> result == nil
+//@   ensures  wraps: decorator != nil ==> hasType(result, "onAbortMetaWrapper") && unboxAs(result, "onAbortMetaWrapper").Decorator == decorator && unboxAs(result, "onAbortMetaWrapper").fn == fn
 //@ func MovingAverageETA
 //@   props    C07 C02
 //@ func NewAverageETA
@@ -347,6 +366,29 @@ package decor
 //@ func (*medianWindow).Swap
 //@   props    C02 C20
 //@   requires s != nil && 0 <= i && i < 3 && 0 <= j && j < 3
+
+// the thread-safe moving average serialises every access to the wrapped average (C10: EWMA
+// decorators are updated from goroutines of their own while the bar is rendered)
+//@ func (*threadSafeMovingAverage).Add
+//@   props    C10 C20 C02
+//@   requires s != nil && s.MovingAverage != nil
+//@   ensures  locked: called("(*sync.Mutex).Lock") == old(called("(*sync.Mutex).Lock")) + 1 && called("(*sync.Mutex).Unlock") == old(called("(*sync.Mutex).Unlock")) + 1
+//@   ensures  forwarded: called("ewma.MovingAverage.Add") == old(called("ewma.MovingAverage.Add")) + 1 && calledWith("ewma.MovingAverage.Add", 1) == value
+//@ func (*threadSafeMovingAverage).Set
+//@   props    C10 C20 C02
+//@   requires s != nil && s.MovingAverage != nil
+//@   ensures  locked: called("(*sync.Mutex).Lock") == old(called("(*sync.Mutex).Lock")) + 1 && called("(*sync.Mutex).Unlock") == old(called("(*sync.Mutex).Unlock")) + 1
+//@   ensures  forwarded: called("ewma.MovingAverage.Set") == old(called("ewma.MovingAverage.Set")) + 1 && calledWith("ewma.MovingAverage.Set", 1) == value
+//@ func (*threadSafeMovingAverage).Value
+//@   props    C10 C20 C02
+//@   requires s != nil && s.MovingAverage != nil
+//@   ensures  locked: called("(*sync.Mutex).Lock") == old(called("(*sync.Mutex).Lock")) + 1 && called("(*sync.Mutex).Unlock") == old(called("(*sync.Mutex).Unlock")) + 1
+//@   ensures  forwarded: called("ewma.MovingAverage.Value") == old(called("ewma.MovingAverage.Value")) + 1 && result == returned("ewma.MovingAverage.Value", 0)
+//@ func NewThreadSafeMovingAverage
+//@   props    C10 C20 C02
+//@   ensures  wrapped: hasType(result, "*threadSafeMovingAverage") && (hasType(average, "*threadSafeMovingAverage") ==> result == average)
+//@   ensures  inner: !hasType(average, "*threadSafeMovingAverage") ==> fresh(result) && unboxAs(result, "*threadSafeMovingAverage").MovingAverage == average
+
 // the window holds the last three samples: Add drops the oldest, Value reads without
 // disturbing it (it sorts a copy)
 //@ func (*medianWindow).Add
